@@ -264,6 +264,12 @@ func (w *World) probes(r *RunResult) {
 			if o.Plan.K.NoFlusher {
 				r.Probes["response_writer_without_flush"]++
 			}
+			if ex.HeldToEnd {
+				r.Probes["answer_held_until_handler_returned"]++
+			}
+			if ex.ComputedLength >= 0 {
+				r.Probes["answer_given_content_length_by_server"]++
+			}
 			if ex.PumpErrLate {
 				r.Probes["request_body_failed_response_ended"]++
 			}
